@@ -324,6 +324,9 @@ pub fn class_relevant(contract: &str, class: &str, prop: &str) -> bool {
     if contract == "c04_impl_header_bounds" && prop == "C19" {
         return matches!(class, "thread-safety-bounds" | "impl-generics" | "unexpected-error" | "unparsable"); // C19 is about the spelling of the fixed bounds
     }
+    if contract == "c07_dependency_inversion" && class == "relative-macro-path" {
+        return prop == "C19"; // the spelling of macro-owned paths is C19's statement alone
+    }
     if contract == "c07_dependency_inversion" && prop == "C19" {
         return matches!(class, "inversion-call" | "block-call" | "selector-bound" | "impl-receiver" | "target-receiver-typed-self" | "further-dependencies" | "target-generics" | "selector-trait" | "unexpected-error" | "unparsable"); // the spelled-out paths and reserved names
     }
